@@ -1,6 +1,7 @@
 import Fzf.Lemmas.Subseq
 import Fzf.Lemmas.Prefilter
 import Fzf.Lemmas.Prog
+import Fzf.Lemmas.Exact
 import Fzf.Generated.Consts
 import Fzf.Generated.GoFuncs
 /-
@@ -153,6 +154,34 @@ theorem C02_v1_forward_total (cfg : Cfg) (cs norm fwd : Bool) (t p : Text) (hp :
   cases fwd
   · simp only [Bool.false_eq_true, if_false]; exact List.reverse_sublist
   · simp only [if_true]
+
+/-- **ExactMatchNaive (`'term`, every term under --exact) and ExactMatchBoundary (`'term'`) are
+    total**: for every line, term, direction and flag setting they return — the scanning loop
+    with its backing-up after a partial match, the neighbour look-ups of the boundary variant
+    and the scoring never index outside the line or the term. -/
+theorem C02_exact_total (cfg : Cfg) (cs norm fwd boundary : Bool) (t : Text) (isBytes : Bool) (p : Text) :
+    ∃ r, exactMatchNaive cfg cs norm fwd boundary t isBytes p = .ok r :=
+  exactMatchNaive_total cfg cs norm fwd boundary t isBytes p
+
+/-- **… sound**: what either variant reports is an occurrence of the term — a range of the
+    term's length inside the line that carries the term character by character after case
+    folding / normalisation — whether the line is searched forward or backward. -/
+theorem C02_exact_sound (cfg : Cfg) (cs norm fwd boundary : Bool) (t : Text) (isBytes : Bool) (p : Text)
+    (hm : 0 < p.size) (r : Res) (hr : exactMatchNaive cfg cs norm fwd boundary t isBytes p = .ok r) (hs : 0 ≤ r.start) :
+    r.stop = r.start + p.size ∧ r.stop ≤ t.size ∧
+    ∀ i, i < p.size → foldRune cfg cs norm (t.getD (r.start.toNat + i) 0) = p.getD i 0 :=
+  exactMatchNaive_sound cfg cs norm fwd boundary t isBytes p hm r hr hs
+
+/-- **… and ExactMatchNaive is complete**: in fzf's three schemes, when it reports no match the
+    term occurs nowhere in the folded line (no matching line is dropped by the ASCII pre-filter,
+    by the restart after a partial match, or by running out of the loop's iterations).
+    `isBytes` = the line is all ASCII; normalisation leaves ASCII alone (`C02_normalize_ascii`). -/
+theorem C02_exact_complete (cfg : Cfg) (hs : RealScheme cfg) (hnorm : ∀ c, c < 128 → cfg.norm c = c)
+    (cs norm fwd : Bool) (t : Text) (isBytes : Bool) (p : Text)
+    (hascii : isBytes = true → ∀ c ∈ t.toList, c < 128) (hm : 0 < p.size) (r : Res)
+    (hr : exactMatchNaive cfg cs norm fwd false t isBytes p = .ok r) (hneg : r.start < 0) :
+    ¬ ∃ s, s + p.size ≤ t.size ∧ ∀ i, i < p.size → foldRune cfg cs norm (t.getD (s + i) 0) = p.getD i 0 :=
+  exactMatchNaive_complete cfg hs hnorm cs norm fwd t isBytes p hascii hm r hr hneg
 
 example : Spec.isSubseq [97, 98] [120, 97, 45, 98] = true := by decide
 example : Spec.isWitness #[120, 97, 45, 98] [97, 98] [1, 3] 1 4 = true := by decide
